@@ -107,7 +107,7 @@ func placeFlags(pos int, layout string, cmd []string, b, e *string, decoy string
 }
 
 func runC06(c *core.Ctx) {
-	c.SetRule("cases: (1) exhaustive window: 6 consecutive dates across a month end (2021-02-26..03-03) and across a leap day (2020-02-27..03-03), logs = shuffled multisets of days over the window, (b,e) over {absent, day before, each of the 6, day after}^2 = 81 pairs incl. equal and inverted, x 11 period-aware command shapes x flag positions {global, sub-command, global decoy overridden by sub-command for -b / for -e} x TZ {UTC, America/Los_Angeles, Asia/Tokyo, Pacific/Kiritimati}; (2) keywords today/yesterday/last7/last30 against --today with days at T-31,-30,-8,-7,-1,0,+1, and summary today|yesterday|DATE; (3) four date layouts for file, flags and --today; (4) random logs and periods. Oracle (metamorphic, byte-exact): output with period == output of the same command on the log with the other days deleted and no period (run once, TZ=UTC); keyword == its explicit date. Non-trivial = period that selects a proper non-empty subset; distinct = hash(log, argv, TZ).")
+	c.SetRule("cases: (1) exhaustive window: 6 consecutive dates across a month end (2021-02-26..03-03), a leap day (2020-02-27..03-03), the end of a leap year and of a common year (12-29..01-03), and the days on which DST starts at local midnight in America/Santiago and America/Havana, logs = shuffled multisets of days over the window, (b,e) over {absent, day before, each of the 6, day after}^2 = 81 pairs incl. equal and inverted, x 11 period-aware command shapes x flag positions {global, sub-command, global decoy overridden by sub-command for -b / for -e} x TZ {UTC, America/Los_Angeles, Asia/Tokyo, Pacific/Kiritimati}; (2) keywords today/yesterday/last7/last30 against --today with days at T-31,-30,-8,-7,-1,0,+1, and summary today|yesterday|DATE; (3) four date layouts for file, flags and --today; (4) random logs and periods. Oracle (metamorphic, byte-exact): output with period == output of the same command on the log with the other days deleted and no period (run once, TZ=UTC); keyword == its explicit date. Non-trivial = period that selects a proper non-empty subset; distinct = hash(log, argv, TZ).")
 	c.Assume("every run passes --today; without it the keywords are resolved against the wall clock, which no deterministic oracle can use")
 	for _, z := range c06Zones[1:] {
 		if _, err := os.Stat(filepath.Join("/usr/share/zoneinfo", z)); err != nil {
@@ -132,7 +132,7 @@ func runC06(c *core.Ctx) {
 
 	// (1) exhaustive window
 	windows := [][]gen.Date{}
-	for _, start := range []gen.Date{{Y: 2021, M: 2, D: 26}, {Y: 2020, M: 2, D: 27}} {
+	for _, start := range []gen.Date{{Y: 2021, M: 2, D: 26}, {Y: 2020, M: 2, D: 27}, {Y: 2020, M: 12, D: 29}, {Y: 2021, M: 12, D: 29}, {Y: 2022, M: 9, D: 9}, {Y: 2022, M: 3, D: 11}} {
 		var w []gen.Date
 		for i := 0; i < 6; i++ {
 			w = append(w, start.AddDays(i))
@@ -164,6 +164,12 @@ func runC06(c *core.Ctx) {
 							it.es = mk(*e, layoutDefault)
 						}
 						it.zones = c06Zones
+						switch wi {
+						case 4: // a zone whose DST starts at local midnight inside the window
+							it.zones = midnightZones("America/Santiago")
+						case 5:
+							it.zones = midnightZones("America/Havana")
+						}
 						items = append(items, it)
 					}
 				}
@@ -380,6 +386,14 @@ func runC06(c *core.Ctx) {
 			}
 		}
 	}
+}
+
+// midnightZones: UTC plus the given zone if its zoneinfo is installed.
+func midnightZones(z string) []string {
+	if _, err := os.Stat(filepath.Join("/usr/share/zoneinfo", z)); err == nil {
+		return []string{"UTC", z}
+	}
+	return []string{"UTC"}
 }
 
 func ds(d *gen.Date) string {
